@@ -129,6 +129,38 @@ func (s *stream) deliver(k int) int {
 	return k
 }
 
+// corruptFramed damages one in-flight PostgreSQL message without breaking the
+// framing of the messages behind it: either bits of one payload byte are
+// flipped, or (tiny >= 0) the length field of the message is set to a value
+// below 4. The in-flight bytes must start at a message boundary.
+func (s *stream) corruptFramed(pick int, mask byte, tiny int) bool {
+	s.mu.Lock()
+	defer s.mu.Unlock()
+	type frame struct{ start, payload, end int }
+	var frames []frame
+	for off := 0; off+5 <= len(s.inflight); {
+		n := int(s.inflight[off+1])<<24 | int(s.inflight[off+2])<<16 | int(s.inflight[off+3])<<8 | int(s.inflight[off+4])
+		if n < 4 || off+1+n > len(s.inflight) {
+			break
+		}
+		frames = append(frames, frame{off, off + 5, off + 1 + n})
+		off += 1 + n
+	}
+	if len(frames) == 0 {
+		return false
+	}
+	f := frames[pick%len(frames)]
+	if tiny >= 0 {
+		s.inflight[f.start+1], s.inflight[f.start+2], s.inflight[f.start+3], s.inflight[f.start+4] = 0, 0, 0, byte(tiny%4)
+		return true
+	}
+	if f.end == f.payload {
+		return false
+	}
+	s.inflight[f.payload+(pick/7)%(f.end-f.payload)] ^= mask
+	return true
+}
+
 // corrupt flips one in-flight byte (hostile peer / broken link).
 func (s *stream) corrupt(off int, x byte) bool {
 	s.mu.Lock()
